@@ -38,6 +38,7 @@ type c03Step struct {
 	Next  []subSpec
 	Algo  int    // rr path: balancing algorithm constant
 	Key   string // rr path: hash key ("" = none)
+	Hold  bool   // req: the caller keeps the connection (IncConnNum on the result, as reverseproxy does)
 }
 
 type c03Plan struct {
@@ -143,6 +144,10 @@ func genC03Plan(rt *rapid.T) c03Plan {
 		p.Subs = genC03Subs(rt, "", nil)
 		p.GB = genGB(rt, rapid.IntRange(0, 2).Draw(rt, "sticky") == 0)
 	}
+	// slow start (cluster_conf BackendConf.SlowStartTime, seconds); the ramp is
+	// wall-clock driven, so the oracle treats a restarted backend as "maybe
+	// eligible" (see c03Run)
+	p.GB.SlowStart = rapid.SampledFrom([]int{0, 0, 0, 1, 3, 30}).Draw(rt, "slowStart")
 	ns := rapid.IntRange(6, 30).Draw(rt, "nsteps")
 	cur := p.Subs
 	downBias := rapid.IntRange(1, 3).Draw(rt, "downBias") // how often a flip means "down"
@@ -166,6 +171,7 @@ func genC03Plan(rt *rapid.T) c03Plan {
 			}
 			cur = st.Next
 		case "req":
+			st.Hold = rapid.Bool().Draw(rt, fmt.Sprintf("hold%d", i))
 			if p.Path == "rr" {
 				st.Algo = rapid.SampledFrom([]int{bal_slb.WrrSmooth, bal_slb.WrrSticky, bal_slb.WlcSimple, bal_slb.WlcSmooth, 9}).Draw(rt, fmt.Sprintf("algo%d", i))
 				st.Key = rapid.StringOfN(rapid.SampledFrom(idAlphabet), 0, 6, -1).Draw(rt, fmt.Sprintf("key%d", i))
@@ -185,7 +191,7 @@ func (p c03Plan) fingerprint() string {
 	var sb strings.Builder
 	fmt.Fprintf(&sb, "%s|%s|%+v", p.Path, fmtSubs(p.Subs), p.GB)
 	for _, s := range p.Steps {
-		fmt.Fprintf(&sb, "|%s %d %d %v %s %d %q %s", s.Op, s.Sub, s.Be, s.Avail, fmtReq(s.Req), s.Algo, s.Key, fmtSubs(s.Next))
+		fmt.Fprintf(&sb, "|%s %d %d %v %s %d %q %v %s", s.Op, s.Sub, s.Be, s.Avail, fmtReq(s.Req), s.Algo, s.Key, s.Hold, fmtSubs(s.Next))
 	}
 	return sb.String()
 }
@@ -206,6 +212,39 @@ func TestC03(t *testing.T) {
 		return
 	}
 	rapid.Check(t, func(rt *rapid.T) { c03Run(rt, rec, genC03Plan(rt)) })
+}
+
+// rampAfterReload: survivors keep their "restarted under slow start" mark, new
+// objects (bfe flags them restarted in Update) get it when slow start is on.
+func rampAfterReload(old, next []subSpec, avail, ramp map[string]bool, slowStart bool) map[string]bool {
+	had := map[string]bool{}
+	for _, s := range old {
+		had[s.Name] = true
+	}
+	nr := map[string]bool{}
+	for _, s := range next {
+		for _, b := range s.Backends {
+			k := s.Name + "/" + b.key()
+			if _, ok := avail[k]; ok && had[s.Name] {
+				nr[k] = ramp[k]
+			} else {
+				nr[k] = slowStart
+			}
+		}
+	}
+	return nr
+}
+
+// definite: eligible backends whose effective weight certainly equals the
+// configured one (never restarted while slow start is enabled).
+func definite(s subSpec, avail, ramp map[string]bool) []target {
+	var ts []target
+	for _, t := range beTargets(s, avail) {
+		if !ramp[s.Name+"/"+t.ID] {
+			ts = append(ts, t)
+		}
+	}
+	return ts
 }
 
 // availAfterReload: members that survive keep their state, everything new is available.
@@ -239,6 +278,7 @@ func c03Run(tb ev.TB, rec *ev.Rec, p c03Plan) {
 		}
 		brr = bal_slb.NewBalanceRR("s")
 		brr.Init(conf)
+		brr.SetSlowStart(p.GB.SlowStart)
 	} else {
 		var err error
 		if r, err = newRig(p.Subs, p.GB); err != nil {
@@ -254,13 +294,15 @@ func c03Run(tb ev.TB, rec *ev.Rec, p c03Plan) {
 	}
 	subs := p.Subs
 	avail := availAfterReload(nil, subs, nil)
+	ramp := map[string]bool{} // restarted while slow start is enabled: effective weight somewhere in 0..configured
+	slowStart := p.GB.SlowStart > 0
 	hs := handles()
 	trace := []string{}
 	witness := func(extra map[string]any) map[string]any {
 		st := []string{}
 		for _, s := range subs {
 			for _, b := range s.Backends {
-				st = append(st, fmt.Sprintf("%s/%s w=%d avail=%v", s.Name, b.key(), b.Weight, avail[s.Name+"/"+b.key()]))
+				st = append(st, fmt.Sprintf("%s/%s w=%d avail=%v restarted-in-slow-start=%v", s.Name, b.key(), b.Weight, avail[s.Name+"/"+b.key()], ramp[s.Name+"/"+b.key()]))
 			}
 		}
 		w := map[string]any{"plan": p, "subclusters_now": fmtSubs(subs), "backends_now": st, "trace": trace}
@@ -305,7 +347,7 @@ func c03Run(tb ev.TB, rec *ev.Rec, p c03Plan) {
 	}
 
 	for _, st := range p.Steps {
-		fmt.Fprintf(&fpb, "|%s %d %d %v %s %d %q %s", st.Op, st.Sub, st.Be, st.Avail, fmtReq(st.Req), st.Algo, st.Key, fmtSubs(st.Next))
+		fmt.Fprintf(&fpb, "|%s %d %d %v %s %d %q %v %s", st.Op, st.Sub, st.Be, st.Avail, fmtReq(st.Req), st.Algo, st.Key, st.Hold, fmtSubs(st.Next))
 		switch st.Op {
 		case "flip", "conn":
 			var withList []subSpec
@@ -324,8 +366,16 @@ func c03Run(tb ev.TB, rec *ev.Rec, p c03Plan) {
 				tb.Fatalf("harness: %d handles for %s/%s", len(h), s.Name, b.key())
 			}
 			if st.Op == "flip" {
+				k := s.Name + "/" + b.key()
+				if st.Avail && !avail[k] {
+					// recovery as done by the health checker: restart flag, then available
+					h[0].SetRestart(true)
+					if slowStart {
+						ramp[k] = true
+					}
+				}
 				h[0].SetAvail(st.Avail)
-				avail[s.Name+"/"+b.key()] = st.Avail
+				avail[k] = st.Avail
 				trace = append(trace, fmt.Sprintf("avail %s/%s=%v", s.Name, b.key(), st.Avail))
 			} else if st.Avail || h[0].ConnNum() == 0 {
 				h[0].IncConnNum()
@@ -348,6 +398,7 @@ func c03Run(tb ev.TB, rec *ev.Rec, p c03Plan) {
 				trace = append(trace, "reload rejected by the loader")
 				continue
 			}
+			ramp = rampAfterReload(subs, st.Next, avail, ramp, slowStart)
 			avail = availAfterReload(subs, st.Next, avail)
 			subs = st.Next
 			hs = handles()
@@ -366,6 +417,7 @@ func c03Run(tb ev.TB, rec *ev.Rec, p c03Plan) {
 			}
 			if p.Path == "rr" {
 				elig := beTargets(subs[0], avail)
+				def := definite(subs[0], avail, ramp)
 				var key []byte
 				if st.Key != "" {
 					key = []byte(st.Key)
@@ -376,6 +428,15 @@ func c03Run(tb ev.TB, rec *ev.Rec, p c03Plan) {
 					res.Backend, res.BeSub = be.AddrInfo, be.SubCluster
 				}
 				cl := []string{"path=rr", fmt.Sprintf("algo=%d", st.Algo)}
+				if slowStart {
+					cl = append(cl, "slow-start")
+					if len(elig) > len(def) {
+						cl = append(cl, "slow-start:restarted-eligible-member")
+					}
+				}
+				if be != nil && err == nil && st.Hold {
+					be.IncConnNum()
+				}
 				if up > 0 && down > 0 {
 					cl = append(cl, "availability=mixed")
 				}
@@ -391,8 +452,9 @@ func c03Run(tb ev.TB, rec *ev.Rec, p c03Plan) {
 					rec.Fail(tb, "served-without-eligible", witness(map[string]any{"got": res.String()}), "no eligible backend, yet %s", res)
 					return
 				}
-				if len(elig) > 0 && (err != nil || be == nil) {
-					rec.Fail(tb, "error-with-eligible", witness(map[string]any{"got": res.String()}), "algorithm %d failed (%v) although eligible backends exist: %v", st.Algo, err, elig)
+				// a member restarted under slow start may still have effective weight 0
+				if len(def) > 0 && (err != nil || be == nil) {
+					rec.Fail(tb, "error-with-eligible", witness(map[string]any{"got": res.String()}), "algorithm %d failed (%v) although eligible backends exist: %v", st.Algo, err, def)
 					return
 				}
 				continue
@@ -409,6 +471,12 @@ func c03Run(tb ev.TB, rec *ev.Rec, p c03Plan) {
 				mode = "sticky"
 			}
 			cl := []string{"path=gslb", "mode=" + mode}
+			if slowStart {
+				cl = append(cl, "slow-start")
+			}
+			if res.be != nil && res.Err == nil && st.Hold {
+				res.be.IncConnNum()
+			}
 			if up > 0 && down > 0 {
 				cl = append(cl, "availability=mixed")
 			} else if down > 0 {
@@ -461,18 +529,23 @@ func c03Run(tb ev.TB, rec *ev.Rec, p c03Plan) {
 					reason = "blackhole-forwarded"
 					return false
 				}
+				// eligA: eligible by configuration and availability; defA: those of
+				// them whose effective weight is certainly the configured one. Members
+				// restarted under slow start ramp up from 0 with the wall clock, so the
+				// sub-cluster may or may not have been able to serve.
 				eligA := beTargets(sa, avail)
-				if rt <= p.GB.RetryMax && len(eligA) > 0 {
+				defA := definite(sa, avail, ramp)
+				if rt <= p.GB.RetryMax && len(eligA) > 0 && res.Err == nil && res.BeSub == a && res.Sub == a {
 					pathClass = "in-subcluster"
+					return true
+				}
+				if rt <= p.GB.RetryMax && len(defA) > 0 {
+					pathClass = "in-subcluster"
+					reason = "not-from-assigned-subcluster"
 					if res.Err != nil {
 						reason = "error-with-eligible"
-						return false
 					}
-					if res.BeSub != a || res.Sub != a {
-						reason = "not-from-assigned-subcluster"
-						return false
-					}
-					return true
+					return false
 				}
 				// cross sub-cluster retry
 				pathClass = "cross"
@@ -492,8 +565,10 @@ func c03Run(tb ev.TB, rec *ev.Rec, p c03Plan) {
 					}
 					candAll++
 					if len(beTargets(s, avail)) > 0 {
-						candOK++
 						okSub[s.Name] = true
+					}
+					if len(definite(s, avail, ramp)) > 0 {
+						candOK++
 					}
 				}
 				if res.Err == nil {
